@@ -258,6 +258,29 @@ func yyInputs(r *Result) (srcs [][]byte, tags []string) {
 	return
 }
 
+// yyInputsThin: yyInputs for the correspondence runs whose per-case cost is a whole tree — in the thorough
+// tier every k-th of the mutated / exhaustive inputs (the driver run diff-yy takes all of them)
+func yyInputsThin(r *Result, k int) (srcs [][]byte, tags []string) {
+	a, t := yyInputs(r)
+	if opts.Tier != "thorough" || k <= 1 {
+		return a, t
+	}
+	n := 0
+	for i := range a {
+		switch t[i] {
+		case "regression", "corpus", "g-cfg":
+		default:
+			n++
+			if n%k != 0 {
+				continue
+			}
+		}
+		srcs = append(srcs, a[i])
+		tags = append(tags, t[i])
+	}
+	return
+}
+
 func diffYY() *Result {
 	r := &Result{Rule: "every input (repository corpus, grammar-driven sentences, the same with a token deleted / inserted / swapped or the text truncated, exhaustive short byte strings after mode prefixes) under 5.6 and 7.4: the model's moves (reductions with their states, reported errors with state and lookahead, popped states, discarded tokens, return code) and syntax-error messages equal the real driver's debug trace and delivered messages"}
 	srcs, tags := yyInputs(r)
